@@ -52,6 +52,21 @@ SetFixedEffect(i, b) ==
   /\ UNCHANGED <<edges, status>>
 SetFixed(i, b) == SetFixedEffect(i, b) /\ obs' = [op |-> "SetFixed"]
 
+\* ---------- user-level edits between calls ----------
+\* `Vertex.pose`, `edge.estimate` and `edge.information` are public attributes: a session may move a vertex (a new initial guess, also for
+\* a fixed vertex) or change a measurement between two calls.  Nothing else changes, and - because the abstract state below is ALL the state
+\* the specification has - every later call behaves as on a graph freshly built from the edited numbers (no cache survives an edit).
+SetPoseEffect(i, tok) ==
+  /\ status = "ready" /\ i \in DOMAIN verts
+  /\ verts' = [verts EXCEPT ![i].pose = tok]
+  /\ UNCHANGED <<edges, status>>
+SetPose(i, tok) == SetPoseEffect(i, tok) /\ obs' = [op |-> "SetPose"]
+SetMeasEffect(n, tok) ==
+  /\ status = "ready" /\ n \in DOMAIN edges
+  /\ edges' = [edges EXCEPT ![n].num = tok]
+  /\ UNCHANGED <<verts, status>>
+SetMeas(n, tok) == SetMeasEffect(n, tok) /\ obs' = [op |-> "SetMeas"]
+
 \* ---------- optimize(tol, max_iter, fix_first_pose, verbose) ----------
 \* st: stop criterion per iteration of THIS call (st[k], k in 1..maxIter, between the states after k-1 and k updates);
 \* np: the pose tokens after the call (any tokens for free vertices: their meaning is the Gauss-Newton step of Assembly)
@@ -91,18 +106,22 @@ Init == verts = <<>> /\ edges = <<>> /\ status = "unbuilt" /\ obs = [op |-> "non
 
 \* ---------- properties (checked on bounded instances by MC_GraphSLAM; imposed on recorded executions by Trace_GraphSLAM) ----------
 SameShape == Len(verts') = Len(verts) /\ \A i \in DOMAIN verts : verts'[i].id = verts[i].id /\ verts'[i].kind = verts[i].kind
-\* a vertex that is fixed after a step did not move in that step (every outcome of optimize, every query; nothing is fixed after a reload)
-FixedFrozen == [][status = "ready" => SameShape /\ \A i \in DOMAIN verts : verts'[i].fixed => verts'[i].pose = verts[i].pose]_vars
+\* a vertex that is fixed after a step did not move in that step (every outcome of optimize, every query; nothing is fixed after a reload);
+\* only the user's own SetPose moves a fixed vertex
+FixedFrozen == [][status = "ready" /\ obs'.op # "SetPose" => SameShape /\ \A i \in DOMAIN verts : verts'[i].fixed => verts'[i].pose = verts[i].pose]_vars
 \* flags are only ever changed by SetFixed, or set (never cleared) on the first vertex by optimize
 FlagsRule == [][status = "ready" /\ obs'.op # "SetFixed" =>
                  \A i \in DOMAIN verts : verts'[i].fixed = verts[i].fixed \/ (obs'.op = "OptCall" /\ i = 1 /\ verts'[i].fixed)
                                                                         \/ (obs'.op = "Reload" /\ ~verts'[i].fixed)]_vars
 \* edges, ids, kinds and orders never change after construction -- except that a file round trip drops the edges no writer exists for
-\* and may change number tokens
+\* and may change number tokens, and that the user's SetMeas changes the number token of one edge
 Skeleton(es) == [n \in DOMAIN es |-> [es[n] EXCEPT !.num = 0]]
 StructureFrozen == [][status = "ready" => /\ SameShape /\ status' = status
                                           /\ IF obs'.op = "Reload" THEN Skeleton(edges') \in {Skeleton(edges), Skeleton(Written(edges))}
+                                             ELSE IF obs'.op = "SetMeas" THEN Skeleton(edges') = Skeleton(edges)
                                              ELSE edges' = edges]_vars
+\* poses are written by the optimizer (free vertices only), by a file round trip and by the user's SetPose - by nothing else
+PosesRule == [][status = "ready" /\ obs'.op \notin {"OptCall", "Reload", "SetPose"} => \A i \in DOMAIN verts : verts'[i].pose = verts[i].pose]_vars
 QueriesPure == [][obs'.op \in Queries => UNCHANGED <<verts, edges, status>>]_vars
 \* every accepted edge is attached to the vertices whose ids it names, whatever the list order
 BoundById == status = "ready" => \A n \in DOMAIN edges : \A j \in DOMAIN edges[n].vids :
